@@ -15,6 +15,15 @@ class Mismatch(Exception):
     pass
 
 
+class Unsupported(Exception):
+    """the harness generator does not handle this shape for this dialect (skipped, never an alarm)"""
+
+
+def dia(cm, key):
+    d = getattr(cm, "dialect", None) or {}
+    return d.get(key, {"name": "c", "mod": "m", "flag": "is_ok", "slice": ("data", "len"), "prefix": "c01", "tags": None}[key])
+
+
 class Ctx:
     def __init__(self, mod, cm, prefix="C"):
         self.mod, self.cm = mod, cm
@@ -54,7 +63,7 @@ def mtype(cm, t, names):
     if t.kind == "enum":
         return mtype(cm, cm.enums[t.tag]["underlying"], names)
     if t.kind in ("struct", "union"):
-        return "m::" + mname_tag(cm, t.tag, names)
+        return dia(cm, "mod") + "::" + mname_tag(cm, t.tag, names)
     if t.kind == "ptr":
         to = t.to
         if to.kind == "fn":
@@ -71,7 +80,8 @@ def mtype(cm, t, names):
 
 def emit_mirror(cm, names):
     """pub mod m { #[repr(C)] structs/unions mirroring every complete C struct/union }"""
-    out = ["#[cfg(kani)]\n#[allow(unused, non_snake_case, non_camel_case_types)]\npub mod m {", "    use super::m;"]
+    mod = dia(cm, "mod")
+    out = ["#[cfg(kani)]\n#[allow(unused, non_snake_case, non_camel_case_types)]\npub mod %s {" % mod, "    use super::%s;" % mod]
     # make names deterministic: named tags first
     for tag in sorted(cm.structs, key=lambda t: (not re.fullmatch(r"tag-\w+", t), t)):
         s = cm.structs[tag]
@@ -91,6 +101,7 @@ def emit_mirror(cm, names):
             fields.append("pub %s: %s" % (fname, mtype(cm, t, names)))
         kw = "union" if s["kind"] == "union" else "struct"
         if s["kind"] == "union" and not fields:
+            out.append("    #[repr(C)]\n    #[derive(Clone, Copy)]\n    pub struct %s {}" % nm)
             continue
         out.append("    #[repr(C)]\n    #[derive(Clone, Copy)]\n    pub %s %s { %s }" % (kw, nm, ", ".join(fields)))
     out.append("}")
@@ -100,6 +111,8 @@ def emit_mirror(cm, names):
 def layout_asserts(cm, names):
     """const assertions: rustc's layout of each mirror equals the layout CBMC's C front end computed"""
     out = []
+    if dia(cm, "name") != "c":
+        return out
     for tag, s in cm.structs.items():
         if s["incomplete"] or (s["kind"] == "union" and not [1 for m_ in s["members"] if not m_[2]]):
             continue
@@ -127,46 +140,111 @@ def c_leaf(cm, t, e):
     raise Mismatch("expected a scalar C type, found %r" % t)
 
 
+def jvm_leaf(cm, ir_t, c_t, e):
+    """Kotlin/JNA carries DiplomatByte / DiplomatChar (raw byte / code point) in the signed JVM types Byte / Int and
+    `bool` results in Byte: for exactly these the bits are compared, not the sign interpretation (stated assumption)."""
+    if dia(cm, "name") == "kotlin" and c_t.kind == "int" and c_t.signed:
+        if ir_t.name == "DiplomatByte" and c_t.width == 8:
+            return "(%s) as u8 as i128" % e
+        if ir_t.name == "DiplomatChar" and c_t.width == 32:
+            return "(%s) as u32 as i128" % e
+    return c_leaf(cm, c_t, e)
+
+
 def struct_members(cm, t):
     if t.kind not in ("struct", "union") or t.tag not in cm.structs or cm.structs[t.tag]["incomplete"]:
         raise Mismatch("expected a complete C struct, found %r" % t)
     return [(n, ty) for n, ty, pad in cm.structs[t.tag]["members"] if not pad]
 
 
+class TS:
+    """shape of an option/result record as declared by a back end"""
+
+    def __init__(self):
+        self.flag = None
+        self.flag_is_bool = True
+        self.ok_path = self.err_path = None     # member path from the record to the payload
+        self.ok_t = self.err_t = None
+        self.union_field = self.union_t = None
+
+    def flag_read(self, e):
+        return "%s.%s" % (e, self.flag) if self.flag_is_bool else "(%s.%s != 0)" % (e, self.flag)
+
+    def literal(self, cx, c_t, ok_expr, flag_expr):
+        MT = mtype(cx.cm, c_t, cx.names)
+        fl = flag_expr if self.flag_is_bool else "(%s) as i8" % flag_expr
+        if self.union_field is not None:
+            UT = mtype(cx.cm, self.union_t, cx.names)
+            return "%s { %s: %s { ok: %s }, %s: %s }" % (MT, self.union_field, UT, ok_expr, self.flag, fl)
+        return "%s { %s: %s, %s: %s }" % (MT, self.ok_path, ok_expr, self.flag, fl)
+
+
 def tagged_shape(cm, t):
-    """C struct {union {ok; err;}; bool is_ok;} -> (anon_field, ok_type|None, err_type|None)"""
+    """record {union {ok; err;}; bool is_ok;} (C, Dart, Kotlin results) or {value; isOk} (Kotlin options)"""
+    flag = dia(cm, "flag")
+    ts = TS()
+    ts.flag = flag
     ms = struct_members(cm, t)
     names = [n for n, _ in ms]
-    if "is_ok" not in names:
-        raise Mismatch("expected an option/result record with an is_ok member, found %r with members %s" % (t, names))
-    isok_t = dict(ms)["is_ok"]
-    if isok_t.kind != "bool":
-        raise Mismatch("is_ok is not a C bool: %r" % isok_t)
-    rest = [(n, ty) for n, ty in ms if n != "is_ok"]
-    if names.index("is_ok") != len(names) - 1:
-        raise Mismatch("is_ok is not the last member of %r" % t)
+    if flag not in names:
+        raise Mismatch("expected an option/result record with an %s member, found %r with members %s" % (flag, t, names))
+    isok_t = dict(ms)[flag]
+    if isok_t.kind == "bool":
+        ts.flag_is_bool = True
+    elif dia(cm, "name") == "kotlin" and isok_t.kind == "int" and isok_t.width == 8:
+        ts.flag_is_bool = False
+    else:
+        raise Mismatch("%s is not a one-byte boolean: %r" % (flag, isok_t))
+    rest = [(n, ty) for n, ty in ms if n != flag]
+    if names.index(flag) != len(names) - 1:
+        raise Mismatch("%s is not the last member of %r" % (flag, t))
     if not rest:
-        return None, None, None, None
-    if len(rest) != 1 or rest[0][1].kind != "union":
-        raise Mismatch("expected exactly one anonymous union before is_ok in %r" % t)
+        return ts
+    if len(rest) != 1:
+        raise Mismatch("expected exactly one payload member before %s in %r" % (flag, t))
     an, ut = rest[0]
-    um = dict(struct_members(cm, ut))
-    extra = set(um) - {"ok", "err"}
-    if extra:
-        raise Mismatch("unexpected union members %s in %r" % (sorted(extra), t))
-    return an.replace("$", ""), ut, um.get("ok"), um.get("err")
+    if ut.kind == "union":
+        um = dict(struct_members(cm, ut)) if not cm.structs[ut.tag].get("empty") else {}
+        extra = set(um) - {"ok", "err"}
+        if extra:
+            raise Mismatch("unexpected union members %s in %r" % (sorted(extra), t))
+        ts.union_field, ts.union_t = an.replace("$", ""), ut
+        if "ok" in um:
+            ts.ok_path, ts.ok_t = "%s.ok" % ts.union_field, um["ok"]
+        if "err" in um:
+            ts.err_path, ts.err_t = "%s.err" % ts.union_field, um["err"]
+        return ts
+    if dia(cm, "name") == "kotlin" and an == "value":
+        ts.ok_path, ts.ok_t = "value", ut
+        return ts
+    raise Mismatch("expected a union before %s in %r, found member %s" % (flag, t, an))
 
 
 def view_shape(cm, t):
+    dn, ln = dia(cm, "slice")
     ms = struct_members(cm, t)
     d = dict(ms)
-    if [n for n, _ in ms] != ["data", "len"]:
-        raise Mismatch("expected a slice view {data, len}, found %r with members %s" % (t, [n for n, _ in ms]))
-    if d["data"].kind != "ptr":
-        raise Mismatch("slice view data is not a pointer: %r" % d["data"])
-    if not (d["len"].kind == "int" and d["len"].width == 64 and not d["len"].signed):
-        raise Mismatch("slice view len is not size_t: %r" % d["len"])
-    return d["data"].to
+    if [n for n, _ in ms] != [dn, ln]:
+        raise Mismatch("expected a slice view {%s, %s}, found %r with members %s" % (dn, ln, t, [n for n, _ in ms]))
+    if d[dn].kind != "ptr":
+        raise Mismatch("slice view data is not a pointer: %r" % d[dn])
+    if not (d[ln].kind == "int" and d[ln].width == 64 and not d[ln].signed):
+        raise Mismatch("slice view length is not size_t: %r" % d[ln])
+    to = d[dn].to
+    if to.kind == "void" or (to.kind == "struct" and to.tag is None):
+        return None      # the back end does not declare the element type (JNA `Pointer`)
+    return to
+
+
+def ir_prim_ctype(p):
+    """the C type of a Rust primitive itself (used only where a back end leaves the element type undeclared)"""
+    n = p.name
+    table = {"i8": ("int", 8, True), "u8": ("int", 8, False), "i16": ("int", 16, True), "u16": ("int", 16, False),
+             "i32": ("int", 32, True), "u32": ("int", 32, False), "i64": ("int", 64, True), "u64": ("int", 64, False),
+             "isize": ("int", 64, True), "usize": ("int", 64, False), "f32": ("float", 32, None), "f64": ("float", 64, None),
+             "bool": ("bool", 8, None), "DiplomatChar": ("int", 32, False), "DiplomatByte": ("int", 8, False)}
+    k, w, sg = table[n]
+    return CType(k, width=w, signed=sg)
 
 
 def prim_pre(ir_t, var):
@@ -193,14 +271,21 @@ def gen_arg(cx, ir_t, c_t, base, top=True):
         if c_t.kind not in ("int", "float", "bool"):
             raise Mismatch("%s: Rust primitive %s but C declares %r" % (base, ir_t.name, c_t))
         a.setup.append("let %s: %s = kani::any();" % (v, MT))
-        a.exp.append("exp.push(%s);" % c_leaf(cm, c_t, v))
+        if ir_t.name == "bool" and c_t.kind == "int":
+            a.setup.append("kani::assume(%s == 0 || %s == 1);" % (v, v))   # a bool carried in an integer type holds 0 or 1
+        a.exp.append("exp.push(%s);" % jvm_leaf(cm, ir_t, c_t, v))
         a.expr = v
         return a
     if isinstance(ir_t, EnumT):
-        if c_t.kind != "enum":
+        if c_t.kind == "int" and dia(cm, "name") != "c":
+            if not (c_t.width == 32 and c_t.signed):
+                raise Mismatch("%s: Rust enum %s (repr(C), 32-bit signed) but the native declaration uses %r" % (base, ir_t.name, c_t))
+            consts = cx.mod.enums[ir_t.name].values()   # values are the documented precondition, taken from the Rust enum
+        elif c_t.kind != "enum":
             raise Mismatch("%s: Rust enum %s but C declares %r" % (base, ir_t.name, c_t))
-        consts = cm.enums[c_t.tag]["consts"]
-        cx.enums_used.add((ir_t.name, c_t.tag))
+        else:
+            consts = cm.enums[c_t.tag]["consts"]
+            cx.enums_used.add((ir_t.name, c_t.tag))
         a.setup.append("let %s: %s = kani::any();" % (v, MT))
         a.setup.append("kani::assume(%s);" % " || ".join("%s == %d" % (v, val) for _, val in consts))
         a.exp.append("exp.push(%s as i128);" % v)
@@ -227,30 +312,27 @@ def gen_arg(cx, ir_t, c_t, base, top=True):
         a.expr = v
         return a
     if isinstance(ir_t, Opt):
-        an, ut, okt, errt = tagged_shape(cm, c_t)
-        if okt is None:
-            raise Mismatch("%s: Option payload %s but the C record has no ok member" % (base, ir_t.inner.rust()))
-        if errt is not None:
+        ts = tagged_shape(cm, c_t)
+        if ts.ok_t is None:
+            raise Mismatch("%s: Option payload %s but the record has no ok member" % (base, ir_t.inner.rust()))
+        if ts.err_t is not None:
             raise Mismatch("%s: Option record has an err member" % base)
-        sub = gen_arg(cx, ir_t.inner, okt, base + "_some", top=False)
+        sub = gen_arg(cx, ir_t.inner, ts.ok_t, base + "_some", top=False)
         a.setup += sub.setup
         a.post += ["if %s_is { %s }" % (v, " ".join(sub.post))] if sub.post else []
         a.cleanup += sub.cleanup
         a.created += sub.created
-        UT = mtype(cm, ut, cx.names)
         a.setup.append("let %s_is: bool = kani::any();" % v)
-        a.setup.append("let %s = %s { %s: %s { ok: %s }, is_ok: %s_is };" % (v, MT, an, UT, sub.expr, v))
+        a.setup.append("let %s = %s;" % (v, ts.literal(cx, c_t, sub.expr, "%s_is" % v)))
         a.exp.append("exp.push(%s_is as i128); if %s_is { %s }" % (v, v, " ".join(sub.exp)))
         a.expr = v
         a.owned_by_rust = sub.owned_by_rust
-        a.absent_flag = "%s_is" % v
-        a.inner_arg = sub
         return a
     if isinstance(ir_t, OpaqueRef):
         if c_t.kind != "ptr" or not (c_t.to.kind == "struct"):
             raise Mismatch("%s: opaque reference but C declares %r" % (base, c_t))
-        ctag = c_t.to.tag[4:] if c_t.to.tag.startswith("tag-") else c_t.to.tag
-        if ctag != ir_t.name:
+        ctag = (c_t.to.tag[4:] if c_t.to.tag.startswith("tag-") else c_t.to.tag) if c_t.to.tag else None
+        if ctag is not None and ctag != ir_t.name:
             raise Mismatch("%s: Rust opaque %s but C pointer to %s" % (base, ir_t.name, ctag))
         a.setup.append("let %s_obj: *mut %s = Box::into_raw(Box::new(%s::verif_new(kani::any())));" % (v, ir_t.name, ir_t.name))
         a.created = 1
@@ -268,6 +350,8 @@ def gen_arg(cx, ir_t, c_t, base, top=True):
     if isinstance(ir_t, (Slice, Str)):
         elem_c = view_shape(cm, c_t)
         elem_ir = ir_t.elem if isinstance(ir_t, Slice) else ir_t.elem()
+        if elem_c is None:
+            elem_c = ir_prim_ctype(elem_ir)
         if elem_c.kind not in ("int", "float", "bool"):
             raise Mismatch("%s: slice element is not a scalar in C: %r" % (base, elem_c))
         EM = mtype(cm, elem_c, cx.names)
@@ -287,7 +371,7 @@ def gen_arg(cx, ir_t, c_t, base, top=True):
         else:
             a.setup.append("let %s_ptr: *mut %s = if %s_null { core::ptr::null_mut() } else { %s_arr.as_mut_ptr() };" % (v, EM, v, v))
         a.setup.append("let %s_n: usize = if %s_null { 0 } else { %s_len };" % (v, v, v))
-        a.setup.append("let %s = %s { data: %s_ptr, len: %s_n as _ };" % (v, MT, v, v))
+        a.setup.append("let %s = %s { %s: %s_ptr as _, %s: %s_n as _ };" % (v, MT, dia(cm, "slice")[0], v, dia(cm, "slice")[1], v))
         a.exp.append("exp.push(%s_n as i128); { let mut i = 0; while i < %s_n { exp.push(%s); i += 1; } }" % (v, v, c_leaf(cm, elem_c, "%s_arr[i]" % v)))
         if kind == "mut":
             a.setup.append("let %s_orig = %s_arr;" % (v, v))
@@ -300,6 +384,8 @@ def gen_arg(cx, ir_t, c_t, base, top=True):
         a.arr, a.n_expr, a.ptr = "%s_arr" % v, "%s_n" % v, "%s_ptr" % v
         return a
     if isinstance(ir_t, StrSlice):
+        if dia(cm, "name") != "c":
+            raise Unsupported("slices of string views are only handled for the C header")
         inner_c = view_shape(cm, c_t)
         elem_c = view_shape(cm, inner_c)
         EM = mtype(cm, elem_c, cx.names)
@@ -332,7 +418,7 @@ def gen_ret(cx, ir_t, c_t, e, base, ctx="ret"):
     if isinstance(ir_t, Prim):
         if c_t.kind not in ("int", "float", "bool"):
             raise Mismatch("%s: Rust returns primitive %s but C declares %r" % (base, ir_t.name, c_t))
-        r.got.append("got.push(%s);" % c_leaf(cm, c_t, e))
+        r.got.append("got.push(%s);" % jvm_leaf(cm, ir_t, c_t, e))
         return r
     if isinstance(ir_t, Ordering):
         if not (c_t.kind == "int" and c_t.width == 8 and c_t.signed):
@@ -340,9 +426,13 @@ def gen_ret(cx, ir_t, c_t, e, base, ctx="ret"):
         r.got.append("got.push((%s) as i128);" % e)
         return r
     if isinstance(ir_t, EnumT):
-        if c_t.kind != "enum":
+        if c_t.kind == "int" and dia(cm, "name") != "c":
+            if not (c_t.width == 32 and c_t.signed):
+                raise Mismatch("%s: Rust returns enum %s (32-bit signed) but the native declaration uses %r" % (base, ir_t.name, c_t))
+        elif c_t.kind != "enum":
             raise Mismatch("%s: Rust returns enum %s but C declares %r" % (base, ir_t.name, c_t))
-        cx.enums_used.add((ir_t.name, c_t.tag))
+        else:
+            cx.enums_used.add((ir_t.name, c_t.tag))
         r.got.append("got.push((%s) as i128);" % e)
         return r
     if isinstance(ir_t, StructT):
@@ -356,29 +446,33 @@ def gen_ret(cx, ir_t, c_t, e, base, ctx="ret"):
             r.cleanup += sub.cleanup
         return r
     if isinstance(ir_t, (Opt, Res)):
-        an, ut, okt, errt = tagged_shape(cm, c_t)
+        ts = tagged_shape(cm, c_t)
+        okt, errt = ts.ok_t, ts.err_t
         ok_ir = ir_t.inner if isinstance(ir_t, Opt) else ir_t.ok
         err_ir = None if isinstance(ir_t, Opt) else ir_t.err
         if (ok_ir is None) != (okt is None):
-            raise Mismatch("%s: ok arm is %s in Rust but the C record %s an ok member (unit arms must occupy no payload)"
+            raise Mismatch("%s: ok arm is %s in Rust but the record %s an ok member (unit arms must occupy no payload)"
                            % (base, ok_ir.rust() if ok_ir else "()", "has" if okt else "has no"))
         if (err_ir is None) != (errt is None):
-            raise Mismatch("%s: err arm is %s in Rust but the C record %s an err member (unit arms must occupy no payload)"
+            raise Mismatch("%s: err arm is %s in Rust but the record %s an err member (unit arms must occupy no payload)"
                            % (base, err_ir.rust() if err_ir else "()", "has" if errt else "has no"))
-        oks = gen_ret(cx, ok_ir, okt, "%s.%s.ok" % (e, an), base + "_ok", ctx) if ok_ir else Ret()
-        errs = gen_ret(cx, err_ir, errt, "%s.%s.err" % (e, an), base + "_err", ctx) if err_ir else Ret()
-        r.got.append("got.push(%s.is_ok as i128); if %s.is_ok { %s } else { %s }" % (e, e, " ".join(oks.got), " ".join(errs.got)))
+        oks = gen_ret(cx, ok_ir, okt, "%s.%s" % (e, ts.ok_path), base + "_ok", ctx) if ok_ir else Ret()
+        errs = gen_ret(cx, err_ir, errt, "%s.%s" % (e, ts.err_path), base + "_err", ctx) if err_ir else Ret()
+        fl = ts.flag_read(e)
+        if not ts.flag_is_bool:
+            r.got.append("assert!(%s.%s == 0 || %s.%s == 1, \"C07: the flag byte must be 0 or 1\");" % (e, ts.flag, e, ts.flag))
+        r.got.append("got.push(%s as i128); if %s { %s } else { %s }" % (fl, fl, " ".join(oks.got), " ".join(errs.got)))
         if oks.cleanup:
-            r.cleanup.append(("if", "%s.is_ok" % e, oks.cleanup))
+            r.cleanup.append(("if", fl, oks.cleanup))
         if errs.cleanup:
-            r.cleanup.append(("if", "!%s.is_ok" % e, errs.cleanup))
-        r.covers += ["kani::cover!(%s.is_ok);" % e, "kani::cover!(!%s.is_ok);" % e]
+            r.cleanup.append(("if", "!%s" % fl, errs.cleanup))
+        r.covers += ["kani::cover!(%s);" % fl, "kani::cover!(!%s);" % fl]
         return r
     if isinstance(ir_t, (OpaqueBox, OpaqueRef)):
         if c_t.kind != "ptr" or c_t.to.kind != "struct":
             raise Mismatch("%s: opaque pointer return but C declares %r" % (base, c_t))
-        ctag = c_t.to.tag[4:]
-        if ctag != ir_t.name:
+        ctag = c_t.to.tag[4:] if c_t.to.tag else None
+        if ctag is not None and ctag != ir_t.name:
             raise Mismatch("%s: Rust opaque %s but C pointer to %s" % (base, ir_t.name, ctag))
         rd = "got.push((%s) as usize as i128); got.push((*((%s) as *const %s)).tag as i128);" % (e, e, ir_t.name)
         if ir_t.optional:
@@ -394,10 +488,13 @@ def gen_ret(cx, ir_t, c_t, e, base, ctx="ret"):
         return r
     if isinstance(ir_t, (Slice, Str)):
         elem_c = view_shape(cm, c_t)
-        r.got.append("got.push(%s.len as i128); { let mut i: usize = 0; while i < (%s.len as usize) { got.push(%s); i += 1; } }"
-                     % (e, e, c_leaf(cm, elem_c, "*%s.data.add(i)" % e)))
+        if elem_c is None:
+            elem_c = ir_prim_ctype(ir_t.elem if isinstance(ir_t, Slice) else ir_t.elem())
+        dn, ln = dia(cm, "slice")
+        r.got.append("got.push(%s.%s as i128); { let mut i: usize = 0; while i < (%s.%s as usize) { got.push(%s); i += 1; } }"
+                     % (e, ln, e, ln, c_leaf(cm, elem_c, "*(%s.%s as *const %s).add(i)" % (e, dn, mtype(cm, elem_c, cx.names)))))
         if ctx == "ret":
-            r.got.append("if %s.len > 0 { got.push(%s.data as usize as i128); }" % (e, e))
+            r.got.append("if %s.%s > 0 { got.push(%s.%s as usize as i128); }" % (e, ln, e, dn))
         return r
     raise Mismatch("%s: unsupported return type %s" % (base, ir_t.rust()))
 
@@ -415,6 +512,8 @@ def render_cleanup(cl, cm, created_counter):
             if fn in cm.functions:
                 out.append("{ let before = vs::DROPS; %s(vs::cast((%s) as *mut core::ffi::c_void)); "
                            "assert!(vs::DROPS == before + 1, \"C03: destroy must drop the object exactly once\"); }" % (fn, ptr))
+            elif dia(cm, "name") != "c":
+                out.append("drop(Box::from_raw((%s) as *mut %s));" % (ptr, tname))
             else:
                 raise Mismatch("no %s in the C header" % fn)
     return out
@@ -429,12 +528,13 @@ def method_unwind(mod, m):
     return max(n, nr, SLICE_N, 8) + 3
 
 
-def gen_method_harness(cx, m, name_prefix="c01"):
+def gen_method_harness(cx, m, name_prefix=None):
     """Returns (harness_name, rust_text, tags) or raises Mismatch."""
     mod, cm = cx.mod, cx.cm
+    name_prefix = name_prefix or dia(cm, "prefix")
     abi = m.abi_name()
     if abi not in cm.functions:
-        raise Mismatch("the Rust module exports %s but no C header declares it" % abi)
+        raise Mismatch("the Rust module exports %s but no %s declaration refers to it" % (abi, dia(cm, "name")))
     f = cm.functions[abi]
     cparams = list(f["params"])
     ir_params = []
@@ -454,6 +554,15 @@ def gen_method_harness(cx, m, name_prefix="c01"):
     for (pn, pt), (cn, ct) in zip(ir_params, cparams):
         if isinstance(pt, Write):
             tags.add("C12")
+            if dia(cm, "name") != "c":
+                if ct.kind != "ptr":
+                    raise Mismatch("%s: DiplomatWrite parameter but the native declaration uses %r" % (abi, ct))
+                write_var = cx.fresh("w")
+                setup.append("let mut %s_buf = [0xAAu8; 8];" % write_var)
+                setup.append("let mut %s = vs::WMirror { context: core::ptr::null_mut(), buf: %s_buf.as_mut_ptr(), len: 0, cap: 8, grow_failed: false, "
+                             "flush: vs::wm_flush, grow: vs::wm_grow };" % (write_var, write_var))
+                call_args.append("vs::cast(&mut %s as *mut vs::WMirror)" % write_var)
+                continue
             if not (ct.kind == "ptr" and ct.to.kind == "struct" and ct.to.tag == "tag-DiplomatWrite"):
                 raise Mismatch("%s: DiplomatWrite parameter but C declares %r" % (abi, ct))
             write_var = cx.fresh("w")
@@ -463,6 +572,8 @@ def gen_method_harness(cx, m, name_prefix="c01"):
             call_args.append("vs::cast(&mut %s as *mut m::DiplomatWrite)" % write_var)
             continue
         if isinstance(pt, Callback):
+            if dia(cm, "name") != "c":
+                raise Unsupported("callbacks are only handled for the C header")
             cb = gen_callback(cx, pt, ct, abi, pn)
             setup += cb["setup"]
             exp += cb["exp_after"]
@@ -531,6 +642,8 @@ def gen_method_harness(cx, m, name_prefix="c01"):
         unwind = max(unwind, 11)
     text = "    #[cfg(kani)]\n    #[kani::proof]\n    #[kani::unwind(%d)]\n    fn %s() {\n        unsafe {\n            %s\n        }\n    }\n" % (
         unwind, hname, "\n            ".join(body))
+    if dia(cm, "tags"):
+        tags = set(dia(cm, "tags"))
     return hname, text, sorted(tags)
 
 
@@ -755,10 +868,10 @@ def gen_seq_harness(cx, odef, steps):
         f = cm.functions[m.abi_name()]
         args = scalar_args(m, f, False)
         set_, call = sum([a[0] for a in args], []), ", ".join(a[1] for a in args)
-        an, ut, okt, errt = tagged_shape(cm, f["ret"])
+        ts = tagged_shape(cm, f["ret"])
         RT = mtype(cm, f["ret"], cx.names)
-        ops.append("if !live[s] { %s let r: %s = vs::cast(%s(%s)); if r.is_ok { let p = r.%s.ok as *mut core::ffi::c_void; assert!(!p.is_null()); slots[s] = p; live[s] = true; created += 1; } }"
-                   % (" ".join(set_), RT, m.abi_name(), call, an))
+        ops.append("if !live[s] { %s let r: %s = vs::cast(%s(%s)); if r.is_ok { let p = r.%s as *mut core::ffi::c_void; assert!(!p.is_null()); slots[s] = p; live[s] = true; created += 1; } }"
+                   % (" ".join(set_), RT, m.abi_name(), call, ts.ok_path))
     for m in borrows:
         f = cm.functions[m.abi_name()]
         args = scalar_args(m, f, True)
@@ -849,3 +962,24 @@ def generate_all(mod, cm, steps=3):
     support = WRITE_SUPPORT if "tag-DiplomatWrite" in cm.structs else ""
     support += "".join(dict.fromkeys(cx.support))
     return {"text": support + "\n".join(texts), "mirror": mirror, "harnesses": harnesses, "static": static}
+
+
+def generate_dialect(mod, cm):
+    """Method harnesses only, for a non-C dialect model (Dart / Kotlin native declarations)."""
+    cx = Ctx(mod, cm)
+    mirror = emit_mirror(cm, cx.names)
+    texts, harnesses, static, skipped = [], {}, [], []
+    for m in mod.methods:
+        try:
+            h, t, tags = gen_method_harness(cx, m)
+            texts.append(t)
+            harnesses[h] = tags
+        except Unsupported as e:
+            skipped.append((m.abi_name(), str(e)))
+        except Mismatch as e:
+            static.append((m.abi_name(), str(e), dia(cm, "tags") or ["C07"]))
+    known = {m.abi_name() for m in mod.methods} | {"%s_destroy" % o for o in mod.opaques}
+    for fn in cm.functions:
+        if fn not in known and not fn.startswith("diplomat_"):
+            static.append((fn, "the %s bindings refer to native symbol %s, which the Rust module does not export" % (dia(cm, "name"), fn), dia(cm, "tags") or ["C07"]))
+    return {"text": "\n".join(texts), "mirror": mirror, "harnesses": harnesses, "static": static, "skipped": skipped}
